@@ -1,0 +1,19 @@
+//go:build verif
+
+package queue
+
+import "github.com/lindb/lindb/pkg/queue/page"
+
+// VerifSetPageFactory replaces the function that creates page factories (only compiled with
+// -tags verif): a verification harness wraps factories/pages to observe every store into a page.
+// It returns the previous function.
+func VerifSetPageFactory(fn func(path string, pageSize int) (page.Factory, error)) func(path string, pageSize int) (page.Factory, error) {
+	old := newPageFactoryFunc
+	newPageFactoryFunc = fn
+	return old
+}
+
+// VerifConstants returns the page geometry the package was built with.
+func VerifConstants() (dataPage, indexItems, indexItemLen, metaPage int) {
+	return dataPageSize, indexItemsPerPage, indexItemLength, metaPageSize
+}
